@@ -31,6 +31,34 @@ const ADDR_IN_USE: i64 = -1;
 const EXHAUSTED: i64 = -2;
 const FAILED: i64 = -3;
 
+thread_local! {
+    static PANICS: RefCell<Vec<String>> = const { RefCell::new(Vec::new()) };
+}
+
+/// Like util::catch, but returns the messages of *all* panics raised while `f` ran
+/// (the first one is the cause; later ones are tokio's "a spawned task panicked").
+fn catch_all<R>(f: impl FnOnce() -> R) -> Result<R, Vec<String>> {
+    let prev = std::panic::take_hook();
+    PANICS.with(|p| p.borrow_mut().clear());
+    std::panic::set_hook(Box::new(|info| {
+        let msg = if let Some(s) = info.payload().downcast_ref::<&str>() {
+            s.to_string()
+        } else if let Some(s) = info.payload().downcast_ref::<String>() {
+            s.clone()
+        } else {
+            "panic".to_string()
+        };
+        PANICS.with(|p| p.borrow_mut().push(msg));
+    }));
+    let r = std::panic::catch_unwind(std::panic::AssertUnwindSafe(f));
+    std::panic::set_hook(prev);
+    r.map_err(|_| PANICS.with(|p| p.borrow().clone()))
+}
+
+fn documented_panic(msg: &str) -> bool {
+    msg.contains("server socket buffer full") || msg.contains("is already connected") || msg.contains("ports exhausted")
+}
+
 /// Poll a future exactly once.
 async fn poll_once<F: Future + Unpin>(f: &mut F) -> Poll<F::Output> {
     std::future::poll_fn(|cx| Poll::Ready(Pin::new(&mut *f).poll(cx))).await
@@ -439,7 +467,7 @@ impl<'a> PortsRun<'a> {
                         SlotInfo { kind: "out".into(), port: res as u16, peer: r["peer"].as_u64().unwrap() as u16, r: true, w: true },
                     );
                 }
-                json!({"ev":"connect","s":s,"how":how,"res":res,"err":r["err"]})
+                json!({"ev":"connect","s":s,"how":how,"res":res})
             }
             "accept" => {
                 let l = o["l"].as_u64().unwrap() as usize;
@@ -613,9 +641,12 @@ fn is_dns_op(a: &str) -> bool {
     matches!(a, "lookup" | "reverse" | "literal" | "regex")
 }
 
-/// Replay one TLC history; returns (divergence, recorded trace, nontrivial).
-fn ports_replay_one(beh: &[Value], lo: u16, hi: u16, v6: bool, full: bool) -> (Option<Value>, Vec<Value>, bool) {
-    let mut div = None;
+/// Replay one TLC history; returns (first result divergence, first hook-table
+/// divergence, recorded trace, nontrivial).  Only a result divergence can make
+/// the PropSpec reject (it sees results only); table divergences are drift.
+fn ports_replay_one(beh: &[Value], lo: u16, hi: u16, v6: bool) -> (Option<Value>, Option<Value>, Vec<Value>, bool) {
+    let mut rdiv = None;
+    let mut tdiv = None;
     let mut nontrivial = false;
     let dns_mode = beh.first().map(|e| is_dns_op(e["op"]["a"].as_str().unwrap())).unwrap_or(false);
     if dns_mode {
@@ -631,14 +662,11 @@ fn ports_replay_one(beh: &[Value], lo: u16, hi: u16, v6: bool, full: bool) -> (O
                 nontrivial = true;
             }
             rec::emit(ev.clone());
-            if !ok && div.is_none() {
-                div = Some(json!({"at":i,"what":a,"want":e["op"],"got":ev}));
-                if !full {
-                    break;
-                }
+            if !ok && rdiv.is_none() {
+                rdiv = Some(json!({"at":i,"what":a,"want":e["op"],"got":ev}));
             }
         }
-        return (div, rec::take(), nontrivial);
+        return (rdiv, None, rec::take(), nontrivial);
     }
     let mut run = PortsRun::new(lo, hi, v6, 1);
     for (i, e) in beh.iter().enumerate() {
@@ -650,18 +678,14 @@ fn ports_replay_one(beh: &[Value], lo: u16, hi: u16, v6: bool, full: bool) -> (O
         rec::emit(ev.clone());
         let t = run.tables();
         rec::emit(t.clone());
-        if div.is_none() {
-            if ev.get("res").is_some() && ev["res"] != e["op"]["res"] {
-                div = Some(json!({"at":i,"what":"result","want":e["op"],"got":ev}));
-            } else if t["cur"] != e["cur"] || t["udp"] != e["udp"] || t["tcp"] != e["tcp"] || t["str"] != e["str"] {
-                div = Some(json!({"at":i,"what":"tables","want":{"cur":e["cur"],"udp":e["udp"],"tcp":e["tcp"],"str":e["str"]},"got":t}));
-            }
-            if div.is_some() && !full {
-                break;
-            }
+        if rdiv.is_none() && ev.get("res").is_some() && ev["res"] != e["op"]["res"] {
+            rdiv = Some(json!({"at":i,"what":"result","want":e["op"],"got":ev}));
+        }
+        if tdiv.is_none() && (t["cur"] != e["cur"] || t["udp"] != e["udp"] || t["tcp"] != e["tcp"] || t["str"] != e["str"]) {
+            tdiv = Some(json!({"at":i,"what":"tables","want":{"cur":e["cur"],"udp":e["udp"],"tcp":e["tcp"],"str":e["str"]},"got":t}));
         }
     }
-    (div, rec::take(), nontrivial)
+    (rdiv, tdiv, rec::take(), nontrivial)
 }
 
 fn main_ports_replay(args: &[String]) {
@@ -671,18 +695,20 @@ fn main_ports_replay(args: &[String]) {
     let lo = util::arg_u64(args, "lo", 49152) as u16;
     let hi = util::arg_u64(args, "hi", 49154) as u16;
     let v6 = util::arg_u64(args, "v6", 0) == 1;
+    let keep = util::arg_u64(args, "keep", 0) == 1;
     let text = std::fs::read_to_string(&inp).expect("read behaviours");
-    let (mut total, mut nontrivial, mut ndiv) = (0u64, 0u64, 0u64);
+    let (mut total, mut nontrivial, mut ndiv, mut nres) = (0u64, 0u64, 0u64, 0u64);
     let mut divs: Vec<Value> = Vec::new();
+    let mut tdivs: Vec<Value> = Vec::new();
     let mut samples: Vec<Value> = Vec::new();
     for (k, line) in text.lines().enumerate() {
         if line.trim().is_empty() {
             continue;
         }
         let beh: Vec<Value> = serde_json::from_str(line).expect("behaviour json");
-        let (d, tr, nt) = match util::catch(|| ports_replay_one(&beh, lo, hi, v6, false)) {
+        let (rd, td, tr, nt) = match util::catch(|| ports_replay_one(&beh, lo, hi, v6)) {
             Ok(x) => x,
-            Err(p) => (Some(json!({"what":"panic","msg":p})), vec![], false),
+            Err(p) => (Some(json!({"what":"panic","msg":p})), None, vec![], false),
         };
         total += 1;
         if nt {
@@ -691,25 +717,36 @@ fn main_ports_replay(args: &[String]) {
         if samples.len() < 2 && nt && beh.len() >= 3 {
             samples.push(json!({"behaviour": beh, "trace_excerpt": tr.iter().take(10).collect::<Vec<_>>()}));
         }
-        if let Some(mut d) = d {
+        if rd.is_some() || td.is_some() {
             ndiv += 1;
-            if divs.len() < 20 {
+        }
+        if let (true, Some(dir)) = (keep, &traces) {
+            util::write_ndjson(&format!("{dir}/all-{k}.ndjson"), &tr);
+        }
+        if let Some(mut d) = rd {
+            nres += 1;
+            if divs.len() < 25 {
                 d["line"] = json!(k);
                 d["behaviour"] = json!(beh);
                 if let Some(dir) = &traces {
                     let p = format!("{dir}/div-{}.ndjson", divs.len());
-                    let full = util::catch(|| ports_replay_one(&beh, lo, hi, v6, true)).map(|r| r.1).unwrap_or(tr);
-                    util::write_ndjson(&p, &full);
+                    util::write_ndjson(&p, &tr);
                     d["trace"] = json!(p);
                 }
                 divs.push(d);
             }
+        } else if let Some(mut d) = td {
+            if tdivs.len() < 3 {
+                d["line"] = json!(k);
+                d["behaviour"] = json!(beh);
+                tdivs.push(d);
+            }
         }
     }
-    let summary = json!({"behaviours": total, "nontrivial": nontrivial, "divergent": ndiv,
-        "divergences": divs, "samples": samples});
+    let summary = json!({"behaviours": total, "nontrivial": nontrivial, "divergent": ndiv, "result_divergent": nres,
+        "divergences": divs, "table_divergences": tdivs, "samples": samples});
     std::fs::write(&out, serde_json::to_string(&summary).unwrap()).unwrap();
-    println!("replayed={total} nontrivial={nontrivial} divergent={ndiv}");
+    println!("replayed={total} nontrivial={nontrivial} divergent={ndiv} result_divergent={nres}");
 }
 
 /// Seeded random histories on the host under test (ports) and random DNS sessions.
@@ -721,6 +758,7 @@ fn main_ports_random(args: &[String]) {
     let hi = util::arg_u64(args, "hi", 49156) as u16;
     let maxsock = util::arg_u64(args, "maxsock", 8) as usize;
     let names = util::arg_u64(args, "names", 40);
+    let dnsops = util::arg_u64(args, "dnsops", nops * 2);
     let out = util::arg(args, "out").expect("out=");
     let mut rng = SmallRng::seed_from_u64(seed ^ 0x706f7274);
     let mut all: Vec<Value> = Vec::new();
@@ -742,7 +780,10 @@ fn main_ports_random(args: &[String]) {
                     0 | 1 => json!({"a":"bind","proto":"udp","s":s,"p": if rng.random_bool(0.6) {0} else {fixed[rng.random_range(0..fixed.len())]}}),
                     2 | 3 => json!({"a":"bind","proto":"tcp","s":s,"p": if rng.random_bool(0.6) {0} else {fixed[rng.random_range(0..fixed.len())]}}),
                     4 | 5 => json!({"a":"connect","s":s,"how":"ok"}),
-                    6 => json!({"a":"connect","s":s,"how":["refused","noroute","cancel"][rng.random_range(0..3)]}),
+                    6 => {
+                        let how = ["refused", "noroute", "cancel"][rng.random_range(0..3)];
+                        json!({"a":"connect","s":s,"how":how})
+                    }
                     _ => {
                         if !lsts.is_empty() && nin < (hi - lo + 1) {
                             nin += 1;
@@ -776,7 +817,7 @@ fn main_ports_random(args: &[String]) {
         // ---- DNS session
         let mut d = DnsRun::new(v6, names);
         let mut registered: Vec<u64> = Vec::new();
-        for i in 0..(nops * 2) {
+        for i in 0..dnsops {
             let o = match rng.random_range(0..10) {
                 0..=4 => {
                     let n = rng.random_range(1..=names);
@@ -802,11 +843,1152 @@ fn main_ports_random(args: &[String]) {
     println!("runs={runs} events={} port_ops={nport} dns_ops={ndns}", all.len());
 }
 
+// ===========================================================================
+// MsgTcp (C02, C12)
+//
+// Hosts: clients "c1".."c{nh-1}" and the server "srv" (host nh).  In replay
+// mode every client<->server link is held from the start, so each message a
+// host sends stays in the link until the controller delivers it through
+// Sim::links / SentRef::deliver, in the order of the TLC behaviour.  One model
+// action = one puppet command (or controller call) + one Sim::step.
+
+use tokio::io::{AsyncReadExt, AsyncWriteExt};
+use turmoil::{Protocol, Segment};
+
+enum End {
+    Whole(TcpStream),
+    Split(Option<OwnedReadHalf>, Option<OwnedWriteHalf>),
+}
+
+#[derive(Clone, Debug)]
+enum TCmd {
+    Bind { p: u64, kind: String },
+    DropListener { p: u64 },
+    Connect { c: u64, dst: String, dh: u64, p: u64, lo: bool },
+    Poll { c: u64 },
+    Cancel { c: u64 },
+    Accept { p: u64 },
+    Write { key: String, c: u64, s: u64, data: Vec<u8>, via: u8 },
+    Shutdown { key: String, c: u64, s: u64 },
+    Read { key: String, c: u64, s: u64, n: usize, peek: bool },
+    DropHalf { key: String, c: u64, s: u64, h: String },
+    DropStream { key: String, c: u64, s: u64 },
+}
+
+#[derive(Default)]
+struct TcpShared {
+    cmds: Vec<VecDeque<TCmd>>, // index = host (1-based)
+    v6: bool,
+}
+
+fn real_port(p: u64) -> u16 {
+    7000 + p as u16
+}
+
+fn errname(e: &std::io::Error) -> String {
+    use std::io::ErrorKind::*;
+    match e.kind() {
+        ConnectionRefused => "refused".into(),
+        ConnectionReset => "reset".into(),
+        BrokenPipe => "brokenpipe".into(),
+        NotConnected => "notconnected".into(),
+        WouldBlock => "wouldblock".into(),
+        AddrInUse => "inuse".into(),
+        k => format!("err:{k:?}"),
+    }
+}
+
+async fn end_read(end: &mut End, n: usize, peek: bool) -> (String, Vec<u8>) {
+    let mut buf = vec![0u8; n];
+    let r = match end {
+        End::Whole(st) => {
+            if peek {
+                let mut f = Box::pin(st.peek(&mut buf));
+                poll_once(&mut f).await
+            } else {
+                let mut f = Box::pin(st.read(&mut buf));
+                poll_once(&mut f).await
+            }
+        }
+        End::Split(Some(r), _) => {
+            if peek {
+                let mut f = Box::pin(r.peek(&mut buf));
+                poll_once(&mut f).await
+            } else {
+                let mut f = Box::pin(r.read(&mut buf));
+                poll_once(&mut f).await
+            }
+        }
+        _ => return ("nohalf".into(), vec![]),
+    };
+    match r {
+        Poll::Pending => ("pending".into(), vec![]),
+        Poll::Ready(Ok(0)) => (if n == 0 { "zero" } else { "eof" }.into(), vec![]),
+        Poll::Ready(Ok(k)) => ("data".into(), buf[..k].to_vec()),
+        Poll::Ready(Err(e)) => (errname(&e), vec![]),
+    }
+}
+
+async fn end_write(end: &mut End, data: &[u8], via: u8) -> (String, usize) {
+    let r: Poll<std::io::Result<usize>> = match end {
+        End::Whole(st) => {
+            if via == 1 {
+                Poll::Ready(st.try_write(data))
+            } else {
+                let mut f = Box::pin(st.write(data));
+                poll_once(&mut f).await
+            }
+        }
+        End::Split(_, Some(w)) => {
+            let mut f = Box::pin(w.write(data));
+            poll_once(&mut f).await
+        }
+        _ => return ("nohalf".into(), 0),
+    };
+    match r {
+        Poll::Pending => ("wouldblock".into(), 0),
+        Poll::Ready(Ok(k)) => ("ok".into(), k),
+        Poll::Ready(Err(e)) => (errname(&e), 0),
+    }
+}
+
+async fn end_shutdown(end: &mut End) -> String {
+    let r = match end {
+        End::Whole(st) => {
+            let mut f = Box::pin(st.shutdown());
+            poll_once(&mut f).await
+        }
+        End::Split(_, Some(w)) => {
+            let mut f = Box::pin(w.shutdown());
+            poll_once(&mut f).await
+        }
+        _ => return "nohalf".into(),
+    };
+    match r {
+        Poll::Pending => "pending".into(),
+        Poll::Ready(Ok(())) => "ok".into(),
+        Poll::Ready(Err(e)) => errname(&e),
+    }
+}
+
+/// Execute the commands scripted for this turn; every result is recorded as an event.
+async fn tcp_exec(
+    h: usize,
+    v6: bool,
+    cmds: Vec<TCmd>,
+    listeners: &mut BTreeMap<u64, TcpListener>,
+    futs: &mut BTreeMap<u64, BoxFut<std::io::Result<TcpStream>>>,
+    ends: &mut BTreeMap<String, End>,
+) {
+    for cmd in cmds {
+        match cmd {
+            TCmd::Bind { p, kind } => {
+                let ip: IpAddr = if kind == "lo" {
+                    if v6 {
+                        IpAddr::V6(Ipv6Addr::LOCALHOST)
+                    } else {
+                        IpAddr::V4(Ipv4Addr::LOCALHOST)
+                    }
+                } else {
+                    wildcard(v6)
+                };
+                let mut f = Box::pin(TcpListener::bind((ip, real_port(p))));
+                let res = match futures_now(&mut f) {
+                    Some(Ok(l)) => {
+                        listeners.insert(p, l);
+                        "ok".to_string()
+                    }
+                    Some(Err(e)) => errname(&e),
+                    None => "pending".into(),
+                };
+                rec::emit(json!({"ev":"bind","h":h,"p":p,"kind":kind,"res":res}));
+            }
+            TCmd::DropListener { p } => {
+                if listeners.remove(&p).is_some() {
+                    rec::emit(json!({"ev":"drop_listener","h":h,"p":p}));
+                }
+            }
+            TCmd::Connect { c, dst, dh, p, lo } => {
+                rec::emit(json!({"ev":"connect_begin","c":c}));
+                let mut f: BoxFut<std::io::Result<TcpStream>> = Box::pin(TcpStream::connect((dst, real_port(p))));
+                let res = match poll_once(&mut f).await {
+                    Poll::Pending => {
+                        futs.insert(c, f);
+                        "pending".to_string()
+                    }
+                    Poll::Ready(Ok(st)) => {
+                        ends.insert(format!("c{c}"), End::Whole(st));
+                        "ok".into()
+                    }
+                    Poll::Ready(Err(e)) => errname(&e),
+                };
+                rec::emit(json!({"ev":"connect","c":c,"h":h,"dh":dh,"dp":p,"lo":lo,"res":res}));
+            }
+            TCmd::Poll { c } => {
+                let Some(mut f) = futs.remove(&c) else { continue };
+                let ev = match poll_once(&mut f).await {
+                    Poll::Pending => {
+                        futs.insert(c, f);
+                        json!({"ev":"poll","c":c,"res":"pending","local":"","peer":""})
+                    }
+                    Poll::Ready(Ok(st)) => {
+                        let (l, p) = (st.local_addr().unwrap().to_string(), st.peer_addr().unwrap().to_string());
+                        ends.insert(format!("c{c}"), End::Whole(st));
+                        json!({"ev":"poll","c":c,"res":"ok","local":l,"peer":p})
+                    }
+                    Poll::Ready(Err(e)) => json!({"ev":"poll","c":c,"res":errname(&e),"local":"","peer":""}),
+                };
+                rec::emit(ev);
+            }
+            TCmd::Cancel { c } => {
+                if futs.remove(&c).is_some() {
+                    rec::emit(json!({"ev":"cancel","c":c}));
+                }
+            }
+            TCmd::Accept { p } => {
+                let Some(l) = listeners.get(&p) else { continue };
+                let mut f = Box::pin(l.accept());
+                let ev = match poll_once(&mut f).await {
+                    Poll::Pending => json!({"ev":"accept","h":h,"p":p,"res":"pending","c":0}),
+                    Poll::Ready(Ok((st, origin))) => {
+                        let local = st.local_addr().unwrap().to_string();
+                        ends.insert(origin.to_string(), End::Whole(st));
+                        json!({"ev":"accept","h":h,"p":p,"res":"ok","o":origin.to_string(),"local":local,"peer":origin.to_string()})
+                    }
+                    Poll::Ready(Err(e)) => json!({"ev":"accept","h":h,"p":p,"res":errname(&e),"c":0}),
+                };
+                rec::emit(ev);
+            }
+            TCmd::Write { key, c, s, data, via } => {
+                let Some(end) = ends.get_mut(&key) else { continue };
+                let (res, k) = end_write(end, &data, via).await;
+                rec::emit(json!({"ev":"write","c":c,"s":s,"res":res,"data":data[..k].to_vec(),"len":data.len(),"via":via}));
+            }
+            TCmd::Shutdown { key, c, s } => {
+                let Some(end) = ends.get_mut(&key) else { continue };
+                let res = end_shutdown(end).await;
+                rec::emit(json!({"ev":"shutdown","c":c,"s":s,"res":res}));
+            }
+            TCmd::Read { key, c, s, n, peek } => {
+                let Some(end) = ends.get_mut(&key) else { continue };
+                let (res, got) = end_read(end, n, peek).await;
+                rec::emit(json!({"ev": if peek {"peek"} else {"read"},"c":c,"s":s,"n":n,"res":res,"got":got}));
+            }
+            TCmd::DropHalf { key, c, s, h: half } => {
+                let Some(end) = ends.remove(&key) else { continue };
+                let (mut r, mut w) = match end {
+                    End::Whole(st) => {
+                        let (r, w) = st.into_split();
+                        (Some(r), Some(w))
+                    }
+                    End::Split(r, w) => (r, w),
+                };
+                if half == "r" {
+                    r = None;
+                } else {
+                    w = None;
+                }
+                rec::emit(json!({"ev":"drop_half","c":c,"s":s,"h":half}));
+                if r.is_some() || w.is_some() {
+                    ends.insert(key, End::Split(r, w));
+                }
+            }
+            TCmd::DropStream { key, c, s } => {
+                if let Some(end) = ends.remove(&key) {
+                    let end = match end {
+                        End::Split(Some(r), Some(w)) => End::Whole(r.reunite(w).expect("reunite")),
+                        e => e,
+                    };
+                    drop(end);
+                    rec::emit(json!({"ev":"drop_stream","c":c,"s":s}));
+                }
+            }
+        }
+    }
+}
+
+async fn tcp_puppet(h: usize, sh: Rc<RefCell<TcpShared>>, nt: Rc<Notify>) -> turmoil::Result {
+    let v6 = sh.borrow().v6;
+    let mut listeners = BTreeMap::new();
+    let mut futs = BTreeMap::new();
+    let mut ends = BTreeMap::new();
+    loop {
+        nt.notified().await;
+        let cmds: Vec<TCmd> = sh.borrow_mut().cmds[h].drain(..).collect();
+        tcp_exec(h, v6, cmds, &mut listeners, &mut futs, &mut ends).await;
+        rec::emit(json!({"ev":"count","h":h,"n":turmoil::established_tcp_stream_count()}));
+    }
+}
+
+#[derive(Clone, Debug, PartialEq)]
+struct WireMsg {
+    c: u64,
+    to: u64,
+    kind: String,
+    seq: u64,
+}
+
+struct TcpRun<'a> {
+    sim: turmoil::Sim<'a>,
+    sh: Rc<RefCell<TcpShared>>,
+    notifies: Vec<Rc<Notify>>,
+    nh: usize,
+    /// c -> local address of the connector (learned from the SYN's "Send" tracing event)
+    syn_src: BTreeMap<u64, String>,
+    pending_begin: Option<u64>,
+    /// model-level events of this run (raw events are folded as they are drained)
+    trace: Vec<Value>,
+    /// results of the puppet commands of the last step
+    last_results: Vec<Value>,
+    /// random mode: links are not held, deliveries are read off turmoil's "Delivered" events
+    random: bool,
+    /// same-host connectors whose request travels through the loopback path (no "Send" event):
+    /// their requests arrive in the order they were started (constant one-tick delay)
+    loop_pending: VecDeque<u64>,
+}
+
+fn hostname(h: usize, nh: usize) -> String {
+    if h == nh {
+        "srv".into()
+    } else {
+        format!("c{h}")
+    }
+}
+
+impl<'a> TcpRun<'a> {
+    fn new(nh: usize, cap: usize, v6: bool, seed: u64) -> TcpRun<'a> {
+        Self::with(nh, cap, v6, seed, 1, 1, 1, false)
+    }
+
+    #[allow(clippy::too_many_arguments)]
+    fn with(nh: usize, cap: usize, v6: bool, seed: u64, tick: u64, lmin: u64, lmax: u64, random: bool) -> TcpRun<'a> {
+        let mut b = turmoil::Builder::new();
+        b.tick_duration(Duration::from_millis(tick))
+            .min_message_latency(Duration::from_millis(lmin))
+            .max_message_latency(Duration::from_millis(lmax))
+            .tcp_capacity(cap)
+            .rng_seed(seed)
+            .simulation_duration(Duration::from_secs(36000));
+        if v6 {
+            b.ip_version(turmoil::IpVersion::V6);
+        }
+        let mut sim = b.build();
+        let sh = Rc::new(RefCell::new(TcpShared { cmds: (0..=nh).map(|_| VecDeque::new()).collect(), v6 }));
+        let mut notifies = vec![Rc::new(Notify::new())];
+        for h in 1..=nh {
+            let nt = Rc::new(Notify::new());
+            notifies.push(nt.clone());
+            let shc = sh.clone();
+            sim.host(hostname(h, nh), move || tcp_puppet(h, shc.clone(), nt.clone()));
+        }
+        if !random {
+            for h in 1..nh {
+                sim.hold(hostname(h, nh), "srv");
+            }
+        }
+        let mut r = TcpRun {
+            sim,
+            sh,
+            notifies,
+            nh,
+            syn_src: BTreeMap::new(),
+            pending_begin: None,
+            trace: Vec::new(),
+            last_results: Vec::new(),
+            random,
+            loop_pending: VecDeque::new(),
+        };
+        r.raw_step();
+        rec::take();
+        r.trace.push(json!({"ev":"reset"}));
+        r
+    }
+
+    fn raw_step(&mut self) {
+        for h in 1..=self.nh {
+            self.notifies[h].notify_one();
+        }
+        self.sim.step().expect("step");
+    }
+
+    /// One Sim::step; folds what was recorded into the model-level trace.
+    fn step(&mut self) {
+        self.raw_step();
+        self.last_results.clear();
+        for e in rec::take() {
+            let ev = e["ev"].as_str().unwrap_or("").to_string();
+            match ev.as_str() {
+                "t" => {
+                    if let (Some(c), Some("Send")) = (self.pending_begin, e["message"].as_str()) {
+                        if e["protocol"].as_str() == Some("TCP SYN") {
+                            self.syn_src.insert(c, e["src"].as_str().unwrap_or("").to_string());
+                        }
+                    }
+                    if self.random && e["message"].as_str() == Some("Delivered") {
+                        let proto = e["protocol"].as_str().unwrap_or("");
+                        let (src, dst) = (e["src"].as_str().unwrap_or(""), e["dst"].as_str().unwrap_or(""));
+                        if proto == "TCP SYN" && self.resolve(src, dst).0 == 0 {
+                            if let Some(c) = self.loop_pending.pop_front() {
+                                self.syn_src.insert(c, src.to_string());
+                            }
+                        }
+                        let (c, to) = self.resolve(src, dst);
+                        if c != 0 && proto.starts_with("TCP") {
+                            let (kind, data) = match proto {
+                                "TCP SYN" => ("syn", vec![]),
+                                "TCP FIN" => ("fin", vec![]),
+                                "TCP RST" => ("rst", vec![]),
+                                p => ("data", util::parse_hex_payload(p).unwrap_or_default()),
+                            };
+                            self.trace.push(json!({"ev":"deliver","c":c,"to":to,"kind":kind,"seq":0,"data":data}));
+                            if kind == "syn" {
+                                self.trace.push(json!({"ev":"syn_arrive","c":c}));
+                            }
+                        }
+                    }
+                }
+                "connect_begin" => self.pending_begin = e["c"].as_u64(),
+                "count" => self.trace.push(e),
+                _ => {
+                    let mut e = e;
+                    if ev == "connect" {
+                        self.pending_begin = None;
+                        let c = e["c"].as_u64().unwrap_or(0);
+                        if e["res"].as_str() == Some("pending") && !self.syn_src.contains_key(&c) {
+                            self.loop_pending.push_back(c);
+                        }
+                    }
+                    if let Some(o) = e.get("o").and_then(|v| v.as_str()).map(|s| s.to_string()) {
+                        let c = self.syn_src.iter().find(|(_, a)| **a == o).map(|(c, _)| *c).unwrap_or(0);
+                        e["c"] = json!(c);
+                    }
+                    self.last_results.push(e.clone());
+                    self.trace.push(e);
+                }
+            }
+        }
+        self.trace.push(json!({"ev":"step"}));
+    }
+
+    fn key(&self, c: u64, s: u64) -> String {
+        if s == 1 {
+            format!("c{c}")
+        } else {
+            self.syn_src.get(&c).cloned().unwrap_or_default()
+        }
+    }
+
+    fn resolve(&self, src: &str, dst: &str) -> (u64, u64) {
+        for (c, a) in &self.syn_src {
+            if a == src {
+                return (*c, 2);
+            }
+            if a == dst {
+                return (*c, 1);
+            }
+        }
+        (0, 0)
+    }
+
+    /// Sim::links as model-level message ids, link by link, in queue order.
+    fn links(&self) -> Vec<WireMsg> {
+        let mut raw: Vec<(String, String, String, u64)> = Vec::new();
+        self.sim.links(|links| {
+            for link in links {
+                for sent in link {
+                    let (src, dst) = sent.pair();
+                    let (kind, seq) = match sent.protocol() {
+                        Protocol::Tcp(Segment::Syn(_)) => ("syn", 0),
+                        Protocol::Tcp(Segment::Data(seq, _)) => ("data", *seq),
+                        Protocol::Tcp(Segment::Fin(seq)) => ("fin", *seq),
+                        Protocol::Tcp(Segment::Rst) => ("rst", 0),
+                        _ => ("other", 0),
+                    };
+                    raw.push((src.to_string(), dst.to_string(), kind.to_string(), seq));
+                }
+            }
+        });
+        raw.into_iter()
+            .map(|(src, dst, kind, seq)| {
+                let (c, to) = self.resolve(&src, &dst);
+                WireMsg { c, to, kind, seq }
+            })
+            .collect()
+    }
+
+    /// SentRef::deliver on the first in-flight message equal to m.
+    fn deliver(&mut self, m: &WireMsg) -> bool {
+        let all = self.links();
+        let Some(idx) = all.iter().position(|x| x == m) else { return false };
+        let mut k = 0usize;
+        self.sim.links(|links| {
+            for link in links {
+                for sent in link {
+                    if k == idx {
+                        sent.deliver();
+                    }
+                    k += 1;
+                }
+            }
+        });
+        true
+    }
+
+    fn cmd(&mut self, h: usize, c: TCmd) {
+        self.sh.borrow_mut().cmds[h].push_back(c);
+    }
+
+    fn host_of_side(&self, c: u64, s: u64, conn_host: &BTreeMap<u64, usize>) -> usize {
+        if s == 1 {
+            *conn_host.get(&c).unwrap_or(&1)
+        } else {
+            self.nh
+        }
+    }
+
+    fn counts(&self) -> Vec<u64> {
+        (1..=self.nh)
+            .map(|h| self.sim.verif_host_tables(hostname(h, self.nh)).tcp_streams.len() as u64)
+            .collect()
+    }
+}
+
+struct TcpCfg {
+    nh: usize,
+    cap: usize,
+    v6: bool,
+    pre: bool,
+}
+
+/// Execute one model action (label `op`) on the run; returns the observation to
+/// compare with the label (None for actions without a result).
+fn tcp_do(run: &mut TcpRun<'_>, op: &Value, conn_host: &mut BTreeMap<u64, usize>, nact: u64) -> Option<Value> {
+    let a = op["a"].as_str().unwrap();
+    let c = op["c"].as_u64().unwrap_or(0);
+    let s = op["s"].as_u64().unwrap_or(0);
+    let nh = run.nh;
+    match a {
+        "bind" => {
+            run.cmd(nh, TCmd::Bind { p: op["p"].as_u64().unwrap(), kind: op["kind"].as_str().unwrap().into() });
+            run.step();
+        }
+        "drop_listener" => {
+            run.cmd(nh, TCmd::DropListener { p: op["p"].as_u64().unwrap() });
+            run.step();
+        }
+        "connect" => {
+            let h = op["h"].as_u64().unwrap() as usize;
+            conn_host.insert(c, h);
+            let none = op["dk"].as_str() == Some("none");
+            let dst = if none {
+                if run.sh.borrow().v6 { "fd00::99".to_string() } else { "10.99.99.99".to_string() }
+            } else {
+                "srv".to_string()
+            };
+            run.cmd(h, TCmd::Connect { c, dst, dh: if none { 0 } else { nh as u64 }, p: op["p"].as_u64().unwrap(), lo: false });
+            run.step();
+        }
+        "poll" => {
+            run.cmd(*conn_host.get(&c).unwrap_or(&1), TCmd::Poll { c });
+            run.step();
+        }
+        "cancel" => {
+            run.cmd(*conn_host.get(&c).unwrap_or(&1), TCmd::Cancel { c });
+            run.step();
+        }
+        "accept" => {
+            run.cmd(nh, TCmd::Accept { p: op["p"].as_u64().unwrap() });
+            run.step();
+        }
+        "write" => {
+            let data: Vec<u8> = op["data"].as_array().unwrap().iter().map(|v| v.as_u64().unwrap() as u8).collect();
+            let h = run.host_of_side(c, s, conn_host);
+            let key = run.key(c, s);
+            run.cmd(h, TCmd::Write { key, c, s, data, via: (nact % 2) as u8 });
+            run.step();
+        }
+        "shutdown" => {
+            let h = run.host_of_side(c, s, conn_host);
+            let key = run.key(c, s);
+            run.cmd(h, TCmd::Shutdown { key, c, s });
+            run.step();
+        }
+        "read" | "peek" => {
+            let h = run.host_of_side(c, s, conn_host);
+            let key = run.key(c, s);
+            run.cmd(h, TCmd::Read { key, c, s, n: op["n"].as_u64().unwrap() as usize, peek: a == "peek" });
+            run.step();
+        }
+        "drop_half" => {
+            let h = run.host_of_side(c, s, conn_host);
+            let key = run.key(c, s);
+            run.cmd(h, TCmd::DropHalf { key, c, s, h: op["h"].as_str().unwrap().into() });
+            run.step();
+        }
+        "drop_stream" => {
+            let h = run.host_of_side(c, s, conn_host);
+            let key = run.key(c, s);
+            run.cmd(h, TCmd::DropStream { key, c, s });
+            run.step();
+        }
+        "deliver" => {
+            let m = WireMsg { c, to: op["to"].as_u64().unwrap(), kind: op["kind"].as_str().unwrap().into(), seq: op["seq"].as_u64().unwrap() };
+            let ok = run.deliver(&m);
+            run.step();
+            if ok {
+                run.trace.push(json!({"ev":"deliver","c":m.c,"to":m.to,"kind":m.kind,"seq":m.seq}));
+                if m.kind == "syn" {
+                    run.trace.push(json!({"ev":"syn_arrive","c":m.c}));
+                }
+            }
+            return Some(json!({"ev":"deliver","found":ok}));
+        }
+        "partition" | "repair" => {
+            let h = op["h"].as_u64().unwrap() as usize;
+            let (cn, sn) = (hostname(h, nh), "srv".to_string());
+            if a == "repair" {
+                run.sim.repair(cn.clone(), sn.clone());
+                if op.get("norehold").is_none() {
+                    run.sim.hold(cn, sn);
+                }
+                run.trace.push(json!({"ev":"repair","dirs":[[h, nh],[nh, h]]}));
+            } else {
+                let how = op["how"].as_str().unwrap();
+                let tos: Vec<u64> = match how {
+                    "both" => vec![1, 2],
+                    "c2s" => vec![2],
+                    _ => vec![1],
+                };
+                // requests in flight in a cut direction, as Sim::links shows them before the call
+                let doomed: Vec<u64> = run
+                    .links()
+                    .iter()
+                    .filter(|m| m.kind == "syn" && tos.contains(&m.to) && conn_host.get(&m.c) == Some(&h))
+                    .map(|m| m.c)
+                    .collect();
+                match how {
+                    "both" => run.sim.partition(cn, sn),
+                    "c2s" => run.sim.partition_oneway(cn, sn),
+                    _ => run.sim.partition_oneway(sn, cn),
+                }
+                let mut dirs = Vec::new();
+                if tos.contains(&2) {
+                    dirs.push(json!([h, nh]));
+                }
+                if tos.contains(&1) {
+                    dirs.push(json!([nh, h]));
+                }
+                run.trace.push(json!({"ev":"partition","dirs":dirs,"doomed":doomed}));
+            }
+            if op.get("nostep").is_none() && op.get("norehold").is_none() {
+                run.step();
+            }
+        }
+        "quiet" => {
+            let empty = run.links().is_empty();
+            if empty {
+                run.trace.push(json!({"ev":"quiet"}));
+            }
+            run.step();
+            return Some(json!({"ev":"quiet","empty":empty}));
+        }
+        "tick" => run.step(),
+        other => panic!("unknown tcp action {other}"),
+    }
+    run.last_results.iter().find(|e| e["ev"].as_str() == Some(a)).cloned()
+}
+
+/// Does the observation of an action agree with the label TLC predicted?
+fn tcp_agrees(op: &Value, obs: &Option<Value>) -> bool {
+    let a = op["a"].as_str().unwrap();
+    match a {
+        "deliver" => obs.as_ref().map(|o| o["found"] == json!(true)).unwrap_or(false),
+        "quiet" => obs.as_ref().map(|o| o["empty"] == json!(true)).unwrap_or(false),
+        "tick" | "partition" | "repair" => true,
+        "drop_listener" | "cancel" | "drop_half" | "drop_stream" => obs.is_some(),
+        _ => {
+            let Some(o) = obs else { return false };
+            if op.get("res").is_some() && o["res"] != op["res"] {
+                return false;
+            }
+            if a == "accept" && op["res"].as_str() == Some("ok") && o["c"] != op["c"] {
+                return false;
+            }
+            if (a == "read" || a == "peek") && o["got"] != op["got"] {
+                return false;
+            }
+            if a == "write" && op["res"].as_str() == Some("ok") && o["data"] != op["data"] {
+                return false;
+            }
+            true
+        }
+    }
+}
+
+fn tcp_replay_one(beh: &[Value], cfg: &TcpCfg) -> (Option<Value>, Option<Value>, Vec<Value>, bool) {
+    let mut run = TcpRun::new(cfg.nh, cfg.cap, cfg.v6, 1);
+    let mut conn_host: BTreeMap<u64, usize> = BTreeMap::new();
+    let mut rdiv = None;
+    let mut tdiv = None;
+    if cfg.pre {
+        // the handshake of connection 1 (host 1 -> server, port 1), not part of the behaviour
+        for op in [
+            json!({"a":"bind","p":1,"kind":"any"}),
+            json!({"a":"connect","c":1,"h":1,"p":1,"dk":"srv"}),
+            json!({"a":"deliver","c":1,"to":2,"kind":"syn","seq":0}),
+            json!({"a":"accept","p":1}),
+            json!({"a":"poll","c":1}),
+        ] {
+            tcp_do(&mut run, &op, &mut conn_host, 0);
+        }
+    }
+    let (mut has_fault, mut has_obs) = (false, false);
+    for (i, e) in beh.iter().enumerate() {
+        let op = &e["op"];
+        let a = op["a"].as_str().unwrap();
+        if matches!(a, "deliver" | "partition" | "cancel" | "drop_listener" | "drop_half" | "drop_stream") {
+            has_fault = true;
+        }
+        if matches!(a, "read" | "peek" | "poll" | "accept") && op["res"].as_str() != Some("pending") {
+            has_obs = true;
+        }
+        let obs = tcp_do(&mut run, op, &mut conn_host, i as u64);
+        if rdiv.is_none() && !tcp_agrees(op, &obs) {
+            rdiv = Some(json!({"at":i,"what":"result","want":op,"got":obs}));
+        }
+        if tdiv.is_none() {
+            let got: Vec<Value> = run.links().iter().map(|m| json!({"c":m.c,"to":m.to,"kind":m.kind,"seq":m.seq})).collect();
+            // per link: the model's wire is one global queue; compare link by link (= per connector host)
+            let mut want: Vec<Value> = Vec::new();
+            for h in 1..cfg.nh {
+                for m in e["wire"].as_array().unwrap() {
+                    if conn_host.get(&m["c"].as_u64().unwrap()) == Some(&h) {
+                        want.push(m.clone());
+                    }
+                }
+            }
+            let cnt: Vec<Value> = run.counts().into_iter().map(|n| json!(n)).collect();
+            if json!(got) != json!(want) {
+                tdiv = Some(json!({"at":i,"what":"links","want":want,"got":got}));
+            }
+            // the stream count is an observation of the PropSpec (clause Reclaimed): judged, not drift
+            if rdiv.is_none() && json!(cnt) != e["cnt"] {
+                rdiv = Some(json!({"at":i,"what":"counts","want":e["cnt"],"got":cnt}));
+            }
+        }
+        // Messages the ImplSpec does not predict (the code sent something extra) cannot be
+        // scheduled by the behaviour: they are delivered at once, oldest first, so that
+        // their effect becomes observable and the PropSpec can judge it.
+        loop {
+            let want: Vec<WireMsg> = e["wire"]
+                .as_array()
+                .unwrap()
+                .iter()
+                .map(|m| WireMsg { c: m["c"].as_u64().unwrap(), to: m["to"].as_u64().unwrap(), kind: m["kind"].as_str().unwrap().into(), seq: m["seq"].as_u64().unwrap() })
+                .collect();
+            let mut rest = want.clone();
+            let mut extra = None;
+            for m in run.links() {
+                if let Some(k) = rest.iter().position(|x| *x == m) {
+                    rest.remove(k);
+                } else {
+                    extra = Some(m);
+                    break;
+                }
+            }
+            let Some(m) = extra else { break };
+            if !run.deliver(&m) {
+                break;
+            }
+            run.step();
+            run.trace.push(json!({"ev":"deliver","c":m.c,"to":m.to,"kind":m.kind,"seq":m.seq,"unexpected":true}));
+            if m.kind == "syn" {
+                run.trace.push(json!({"ev":"syn_arrive","c":m.c}));
+            }
+        }
+    }
+    (rdiv, tdiv, std::mem::take(&mut run.trace), has_fault && has_obs)
+}
+
+fn main_tcp_replay(args: &[String]) {
+    let inp = util::arg(args, "in").expect("in=");
+    let out = util::arg(args, "out").expect("out=");
+    let traces = util::arg(args, "traces");
+    let keep = util::arg_u64(args, "keep", 0) == 1;
+    let cfg = TcpCfg {
+        nh: util::arg_u64(args, "nh", 2) as usize,
+        cap: util::arg_u64(args, "cap", 2) as usize,
+        v6: util::arg_u64(args, "v6", 0) == 1,
+        pre: util::arg_u64(args, "pre", 0) == 1,
+    };
+    let text = std::fs::read_to_string(&inp).expect("read behaviours");
+    let (mut total, mut nontrivial, mut ndiv, mut nres) = (0u64, 0u64, 0u64, 0u64);
+    let mut divs: Vec<Value> = Vec::new();
+    let mut tdivs: Vec<Value> = Vec::new();
+    let mut samples: Vec<Value> = Vec::new();
+    rec::with_recorder(|| {
+        for (k, line) in text.lines().enumerate() {
+            if line.trim().is_empty() {
+                continue;
+            }
+            let beh: Vec<Value> = serde_json::from_str(line).expect("behaviour json");
+            let (rd, td, tr, nt) = match util::catch(|| tcp_replay_one(&beh, &cfg)) {
+                Ok(x) => x,
+                Err(p) => {
+                    rec::take();
+                    (Some(json!({"what":"panic","msg":p})), None, vec![], false)
+                }
+            };
+            total += 1;
+            if nt {
+                nontrivial += 1;
+            }
+            if samples.len() < 2 && nt && beh.len() >= 4 {
+                samples.push(json!({"behaviour": beh.iter().map(|e| e["op"].clone()).collect::<Vec<_>>(),
+                    "trace_excerpt": tr.iter().filter(|e| e["ev"] != "count" && e["ev"] != "step").take(14).collect::<Vec<_>>()}));
+            }
+            if rd.is_some() || td.is_some() {
+                ndiv += 1;
+            }
+            if let (true, Some(dir)) = (keep, &traces) {
+                util::write_ndjson(&format!("{dir}/all-{k}.ndjson"), &tr);
+            }
+            if let Some(mut d) = rd {
+                nres += 1;
+                if divs.len() < 25 {
+                    d["line"] = json!(k);
+                    d["behaviour"] = json!(beh);
+                    if let Some(dir) = &traces {
+                        let p = format!("{dir}/div-{}.ndjson", divs.len());
+                        util::write_ndjson(&p, &tr);
+                        d["trace"] = json!(p);
+                    }
+                    divs.push(d);
+                }
+            } else if let Some(mut d) = td {
+                if tdivs.len() < 3 {
+                    d["line"] = json!(k);
+                    d["behaviour"] = json!(beh);
+                    tdivs.push(d);
+                }
+            }
+        }
+    });
+    let summary = json!({"behaviours": total, "nontrivial": nontrivial, "divergent": ndiv, "result_divergent": nres,
+        "divergences": divs, "table_divergences": tdivs, "samples": samples});
+    std::fs::write(&out, serde_json::to_string(&summary).unwrap()).unwrap();
+    println!("replayed={total} nontrivial={nontrivial} divergent={ndiv} result_divergent={nres}");
+}
+
+// ---------------------------------------------------------------------------
+// random scenarios (code -> spec) for MsgTcp
+
+fn model_byte(c: u64, s: u64, k: u64) -> u8 {
+    (64 * ((c - 1) % 4) + 32 * (s - 1) + ((k - 1) % 31) + 1) as u8
+}
+
+#[derive(Clone, Default)]
+struct REnd {
+    r: bool,
+    w: bool,
+    acc: u64, // bytes this end's writes had accepted
+}
+
+#[derive(Clone, Default)]
+struct RConn {
+    h: usize,
+    st: String, // none | pending | ok | dead
+    e1: Option<REnd>,
+    e2: Option<REnd>,
+}
+
+fn main_tcp_random(args: &[String]) {
+    let seed = util::arg_u64(args, "seed", 1);
+    let runs = util::arg_u64(args, "runs", 10);
+    let nh = util::arg_u64(args, "nh", 3) as usize;
+    let cap = util::arg_u64(args, "cap", 2) as usize;
+    let tick = util::arg_u64(args, "tick", 2);
+    let lmin = util::arg_u64(args, "lmin", 1);
+    let lmax = util::arg_u64(args, "lmax", 6);
+    let nconn = util::arg_u64(args, "conns", 3);
+    let steps = util::arg_u64(args, "steps", 45);
+    let mode = util::arg(args, "mode").unwrap_or("data".into());
+    let out = util::arg(args, "out").expect("out=");
+    let mut rng = SmallRng::seed_from_u64(seed ^ 0x6d746370);
+    let mut all: Vec<Value> = Vec::new();
+    let (mut nops, mut nfault, mut nreorder, mut npanic) = (0u64, 0u64, 0u64, 0u64);
+    rec::with_recorder(|| {
+        for r in 0..runs {
+            let v6 = rng.random_bool(0.5);
+            let run_seed: u64 = rng.random();
+            let res = catch_all(|| {
+            let mut rng = SmallRng::seed_from_u64(run_seed);
+            let (mut nops, mut nfault, mut nreorder) = (0u64, 0u64, 0u64);
+            let mut run = TcpRun::with(nh, cap, v6, seed.wrapping_mul(1000).wrapping_add(r), tick, lmin, lmax, true);
+            let mut conns: BTreeMap<u64, RConn> = BTreeMap::new();
+            let mut conn_host: BTreeMap<u64, usize> = BTreeMap::new();
+            let mut bound: BTreeMap<u64, String> = BTreeMap::new();
+            let mut part: BTreeMap<usize, String> = BTreeMap::new();
+            let mut held: BTreeMap<usize, bool> = BTreeMap::new();
+            let mut last_send = 0u64;
+            let conn_mode = mode == "conn";
+            // listener(s)
+            run.cmd(nh, TCmd::Bind { p: 1, kind: "any".into() });
+            bound.insert(1, "any".into());
+            if rng.random_bool(0.5) {
+                let kind = if rng.random_bool(0.5) { "lo" } else { "any" };
+                run.cmd(nh, TCmd::Bind { p: 2, kind: kind.into() });
+                bound.insert(2, kind.into());
+            }
+            run.step();
+            let mut fault_here = false;
+            for st in 1..=steps {
+                // ---- controller
+                if nh > 1 && rng.random_bool(if conn_mode { 0.10 } else { 0.05 }) {
+                    let h = rng.random_range(1..nh);
+                    let (cn, sn) = (hostname(h, nh), "srv".to_string());
+                    if *held.get(&h).unwrap_or(&false) {
+                        run.sim.release(cn, sn);
+                        held.insert(h, false);
+                    } else if part.get(&h).map(|p| p == "none").unwrap_or(true) {
+                        run.sim.hold(cn, sn);
+                        held.insert(h, true);
+                    }
+                    fault_here = true;
+                }
+                if nh > 1 && rng.random_bool(if conn_mode { 0.08 } else { 0.025 }) {
+                    let h = rng.random_range(1..nh);
+                    let cur = part.get(&h).cloned().unwrap_or("none".into());
+                    if cur != "none" && rng.random_bool(0.6) {
+                        tcp_do(&mut run, &json!({"a":"repair","h":h,"norehold":true}), &mut conn_host, 0);
+                        part.insert(h, "none".into());
+                        held.insert(h, false);
+                    } else if cur != "both" {
+                        // Link::release makes both directions Healthy again, explicit partitions
+                        // included: never leave a hold pending on a link that gets partitioned
+                        if *held.get(&h).unwrap_or(&false) {
+                            run.sim.release(hostname(h, nh), "srv".to_string());
+                            held.insert(h, false);
+                        }
+                        let hows: Vec<&str> = ["both", "c2s", "s2c"].into_iter().filter(|x| *x != cur).collect();
+                        let how = hows[rng.random_range(0..hows.len())];
+                        tcp_do(&mut run, &json!({"a":"partition","h":h,"how":how,"nostep":true}), &mut conn_host, 0);
+                        let new = if how == "both" || cur != "none" { "both" } else { how };
+                        part.insert(h, new.into());
+                    }
+                    fault_here = true;
+                    last_send = st;
+                }
+                // ---- listeners (conn mode): drop / re-bind
+                if conn_mode && rng.random_bool(0.05) {
+                    let p = rng.random_range(1..=2u64);
+                    if bound.contains_key(&p) {
+                        run.cmd(nh, TCmd::DropListener { p });
+                        bound.remove(&p);
+                        fault_here = true;
+                    } else {
+                        let kind = if rng.random_bool(0.3) { "lo" } else { "any" };
+                        run.cmd(nh, TCmd::Bind { p, kind: kind.into() });
+                        bound.insert(p, kind.into());
+                    }
+                }
+                // ---- connectors
+                let next = conns.len() as u64 + 1;
+                if next <= nconn && rng.random_bool(0.35) {
+                    let kind = rng.random_range(0..10);
+                    // remote client / the server's own host by name / by 127.0.0.1 / nobody's address
+                    let (h, dst, dh, lo) = if kind < 6 && nh > 1 {
+                        (rng.random_range(1..nh), "srv".to_string(), nh as u64, false)
+                    } else if kind < 8 {
+                        (nh, "srv".to_string(), nh as u64, false)
+                    } else if kind < 9 || !conn_mode {
+                        (nh, if v6 { "::1".to_string() } else { "127.0.0.1".to_string() }, nh as u64, true)
+                    } else {
+                        (if nh > 1 { 1 } else { nh }, if v6 { "fd00::99".to_string() } else { "10.99.99.99".to_string() }, 0, false)
+                    };
+                    let p = if rng.random_bool(0.8) { 1 } else { 2 };
+                    run.cmd(h, TCmd::Connect { c: next, dst, dh, p, lo });
+                    conn_host.insert(next, h);
+                    conns.insert(next, RConn { h, st: "pending".into(), ..Default::default() });
+                    last_send = st;
+                }
+                for (c, k) in conns.iter() {
+                    if k.st == "pending" {
+                        if rng.random_bool(if conn_mode { 0.08 } else { 0.02 }) {
+                            run.cmd(k.h, TCmd::Cancel { c: *c });
+                            fault_here = true;
+                            last_send = st; // an abandoned connect sends an RST
+                        } else if rng.random_bool(0.7) {
+                            run.cmd(k.h, TCmd::Poll { c: *c });
+                        }
+                    }
+                }
+                for p in bound.keys() {
+                    if rng.random_bool(0.6) {
+                        run.cmd(nh, TCmd::Accept { p: *p });
+                    }
+                }
+                // ---- stream ends
+                let late = st * 3 > steps * 2;
+                for (c, k) in conns.iter_mut() {
+                    for s in [1u64, 2u64] {
+                        let hh = if s == 1 { k.h } else { nh };
+                        let key = run.key(*c, s);
+                        let Some(e) = (if s == 1 { k.e1.as_mut() } else { k.e2.as_mut() }) else { continue };
+                        if key.is_empty() {
+                            continue;
+                        }
+                        let pick = rng.random_range(0..100);
+                        if pick < 30 && e.w {
+                            let len = rng.random_range(1..=4u64);
+                            let data: Vec<u8> = (1..=len).map(|j| model_byte(*c, s, e.acc + j)).collect();
+                            run.cmd(hh, TCmd::Write { key, c: *c, s, data, via: rng.random_range(0..2) });
+                            last_send = st;
+                        } else if pick < 62 && e.r {
+                            run.cmd(hh, TCmd::Read { key, c: *c, s, n: rng.random_range(0..=5), peek: false });
+                        } else if pick < 70 && e.r {
+                            run.cmd(hh, TCmd::Read { key, c: *c, s, n: rng.random_range(0..=3), peek: true });
+                        } else if pick < 74 && e.w && (late || rng.random_bool(0.3)) {
+                            run.cmd(hh, TCmd::Shutdown { key, c: *c, s });
+                            last_send = st;
+                        } else if pick < 77 && late {
+                            let h = if e.r && (!e.w || rng.random_bool(0.5)) { "r" } else { "w" };
+                            run.cmd(hh, TCmd::DropHalf { key, c: *c, s, h: h.into() });
+                            last_send = st;
+                        } else if pick < 79 && late && e.r && e.w {
+                            run.cmd(hh, TCmd::DropStream { key, c: *c, s });
+                            last_send = st;
+                        }
+                    }
+                }
+                run.step();
+                if !run.links().is_empty() && lmax > lmin {
+                    nreorder += 1;
+                }
+                random_update(&run.last_results, &mut conns);
+                nops += run.last_results.len() as u64;
+                // quiet: nothing on any link, and (loopback deliveries take one tick) two steps since the last send
+                if run.links().is_empty() && st >= last_send + 3 {
+                    run.trace.push(json!({"ev":"quiet"}));
+                }
+            }
+            // ---- wind down: release holds, let everything arrive, then every reader reads on
+            for h in 1..nh {
+                if *held.get(&h).unwrap_or(&false) {
+                    run.sim.release(hostname(h, nh), "srv".to_string());
+                }
+            }
+            for _ in 0..(2 * lmax / tick + 6) {
+                run.step();
+            }
+            for round in 0..8 {
+                if run.links().is_empty() {
+                    run.trace.push(json!({"ev":"quiet"}));
+                }
+                for (c, k) in conns.iter() {
+                    for s in [1u64, 2u64] {
+                        let hh = if s == 1 { k.h } else { nh };
+                        let key = run.key(*c, s);
+                        let e = if s == 1 { k.e1.as_ref() } else { k.e2.as_ref() };
+                        if let (Some(e), false) = (e, key.is_empty()) {
+                            if e.r {
+                                run.cmd(hh, TCmd::Read { key, c: *c, s, n: 4 + round % 2, peek: false });
+                            }
+                        }
+                    }
+                }
+                run.step();
+                random_update(&run.last_results, &mut conns);
+            }
+            if fault_here {
+                nfault += 1;
+            }
+            (std::mem::take(&mut run.trace), nops, nfault, nreorder)
+            });
+            match res {
+                Ok((tr, a, b, c)) => {
+                    all.extend(tr);
+                    nops += a;
+                    nfault += b;
+                    nreorder += c;
+                }
+                Err(msgs) => {
+                    rec::take();
+                    let cause = msgs.first().cloned().unwrap_or_default();
+                    if documented_panic(&cause) {
+                        // documented panics (listener queue full, 4-tuple reuse, ports exhausted) are
+                        // outcomes outside the statements: the run is discarded
+                        npanic += 1;
+                        eprintln!("run {r} discarded: {cause}");
+                    } else {
+                        // any other panic of the code under test is an observation for the PropSpec
+                        all.push(json!({"ev":"reset"}));
+                        all.push(json!({"ev":"panic","msg":cause,"run":r}));
+                    }
+                }
+            }
+        }
+    });
+    util::write_ndjson(&out, &all);
+    println!("runs={runs} events={} ops={nops} runs_with_faults={nfault} steps_with_inflight={nreorder} discarded={npanic}", all.len());
+}
+
+/// Harness bookkeeping: which connections / ends / halves exist (from the results the calls returned).
+fn random_update(results: &[Value], conns: &mut BTreeMap<u64, RConn>) {
+    for e in results {
+        let c = e["c"].as_u64().unwrap_or(0);
+        let Some(k) = conns.get_mut(&c) else { continue };
+        let s = e["s"].as_u64().unwrap_or(0);
+        match e["ev"].as_str().unwrap_or("") {
+            "connect" | "poll" => match e["res"].as_str().unwrap_or("") {
+                "pending" => {}
+                "ok" => {
+                    k.st = "ok".into();
+                    k.e1 = Some(REnd { r: true, w: true, acc: 0 });
+                }
+                _ => k.st = "dead".into(),
+            },
+            "cancel" => k.st = "dead".into(),
+            "accept" => {
+                if e["res"].as_str() == Some("ok") {
+                    k.e2 = Some(REnd { r: true, w: true, acc: 0 });
+                }
+            }
+            "write" => {
+                if e["res"].as_str() == Some("ok") {
+                    let n = e["data"].as_array().map(|a| a.len()).unwrap_or(0) as u64;
+                    if let Some(x) = if s == 1 { k.e1.as_mut() } else { k.e2.as_mut() } {
+                        x.acc += n;
+                    }
+                }
+            }
+            "drop_half" => {
+                if let Some(x) = if s == 1 { k.e1.as_mut() } else { k.e2.as_mut() } {
+                    if e["h"].as_str() == Some("r") {
+                        x.r = false;
+                    } else {
+                        x.w = false;
+                    }
+                }
+            }
+            "drop_stream" => {
+                if let Some(x) = if s == 1 { k.e1.as_mut() } else { k.e2.as_mut() } {
+                    x.r = false;
+                    x.w = false;
+                }
+            }
+            _ => {}
+        }
+    }
+}
+
 fn main() {
     let args: Vec<String> = std::env::args().skip(1).collect();
     match args.first().map(|s| s.as_str()) {
         Some("ports-replay") => main_ports_replay(&args[1..]),
         Some("ports-random") => main_ports_random(&args[1..]),
+        Some("tcp-replay") => main_tcp_replay(&args[1..]),
+        Some("tcp-random") => main_tcp_random(&args[1..]),
         _ => {
             eprintln!("usage: msgtcp ports-replay|ports-random|tcp-replay|tcp-random key=value...");
             std::process::exit(2);
